@@ -7,6 +7,7 @@ import CuriesVerif.Model.Reference
 import CuriesVerif.Model.Bulk
 import CuriesVerif.Model.Resolver
 import CuriesVerif.Model.Mapping
+import CuriesVerif.Model.JsonFiles
 
 /-!
 # JSON-lines driver
@@ -16,6 +17,36 @@ One request per input line, one response per output line, flushed at the end.
 -/
 
 open Lean (Json)
+
+/-- a modelled JSON value as a tagged protocol value: {"t":"null"} | {"t":"bool","v":b} | {"t":"str","v":[code points]}
+| {"t":"arr","v":[…]} | {"t":"obj","v":[[key,value],…]} -/
+partial def encJV : JsonText.JV → Json
+  | .null => Json.mkObj [("t", "null")]
+  | .bool b => Json.mkObj [("t", "bool"), ("v", .bool b)]
+  | .str s => Json.mkObj [("t", "str"), ("v", Codec.encStr s)]
+  | .arr xs => Json.mkObj [("t", "arr"), ("v", .arr (xs.map encJV).toArray)]
+  | .obj kvs => Json.mkObj [("t", "obj"), ("v", .arr (kvs.map fun (k, v) => Json.arr #[Codec.encStr k, encJV v]).toArray)]
+
+partial def decJV (j : Json) : Except String JsonText.JV := do
+  let t ← (← j.getObjVal? "t").getStr?
+  match t with
+  | "null" => pure .null
+  | "bool" => pure (.bool (← (← j.getObjVal? "v").getBool?))
+  | "str" => pure (.str (← Codec.str (← j.getObjVal? "v")))
+  | "arr" => pure (.arr (← (← (← j.getObjVal? "v").getArr?).toList.mapM decJV))
+  | "obj" =>
+    let items ← (← (← j.getObjVal? "v").getArr?).toList.mapM fun kv => do
+      match (← kv.getArr?).toList with
+      | [k, v] => pure (← Codec.str k, ← decJV v)
+      | _ => throw "key/value pair expected"
+    pure (.obj items)
+  | _ => throw s!"unknown JSON value tag {t}"
+
+def encRecordDict (d : Writers.RecordDict) : Json :=
+  Json.mkObj [("p", Codec.encStr d.pfx), ("u", Codec.encStr d.uri),
+    ("ps", match d.pSyn with | some l => Codec.encStrs l | none => .null),
+    ("us", match d.uSyn with | some l => Codec.encStrs l | none => .null),
+    ("pat", match d.pattern with | some x => Codec.encStr x | none => .null)]
 
 def handle (j : Json) : Except String Json := do
   let k ← (← j.getObjVal? "k").getStr?
@@ -180,6 +211,34 @@ def handle (j : Json) : Except String Json := do
       match Header.handleHeaderText (fun c => spaces.contains c) syn sup dflt t with
       | .ok x => Codec.encStr x
       | .error e => Json.mkObj [("e", .str e.name)]).toArray)])
+  | "json" =>
+    -- {"k":"json","texts":[str,…],"values":[tagged,…],"indent":n|null,"ascii":bool,"epm":[str,…],"jsonld":[str,…]}
+    --   → what the modelled json.loads makes of each text (dict semantics applied), the text the modelled json.dumps
+    --     writes for each value, each extended-prefix-map text read as record dictionaries, each JSON-LD text as terms
+    let texts ← Codec.strs (Codec.fieldD j "texts" (.arr #[]))
+    let values ← (← (Codec.fieldD j "values" (.arr #[])).getArr?).toList.mapM decJV
+    let indent ← match Codec.fieldD j "indent" .null with
+      | .null => pure none
+      | x => some <$> x.getNat?
+    let ascii := Codec.boolD j "ascii" true
+    let epm ← Codec.strs (Codec.fieldD j "epm" (.arr #[]))
+    let jsonld ← Codec.strs (Codec.fieldD j "jsonld" (.arr #[]))
+    let err := Json.mkObj [("t", "error")]
+    pure (Json.mkObj [
+      ("parsed", .arr (texts.map fun t => match JsonText.parse t with
+        | some v => encJV v.dedup
+        | none => err).toArray),
+      ("rendered", .arr (values.map fun v => Codec.encStr (JsonText.render ⟨indent, ascii⟩ 0 v)).toArray),
+      ("epm", .arr (epm.map fun t => match JsonFiles.epmRead t with
+        | some ds => Json.arr (ds.map encRecordDict).toArray
+        | none => .null).toArray),
+      ("jsonld", .arr (jsonld.map fun t => match JsonFiles.jsonldRead t with
+        | some terms => Json.arr (terms.map fun (k, term) => Json.arr #[Codec.encStr k, match term with
+            | .str u => Json.mkObj [("s", Codec.encStr u)]
+            | .prefixDict (some u) => Json.mkObj [("id", Codec.encStr u)]
+            | .prefixDict none => Json.mkObj [("id", .null)]
+            | .other => Json.mkObj [("other", .bool true)]]).toArray
+        | none => .null).toArray)])
   | "csv" =>
     -- {"k":"csv","d":code point,"texts":[str,…],"tables":[[[cell,…],…],…]} → parsed rows of each text, text of each table
     let d ← (← j.getObjVal? "d").getNat?
